@@ -359,13 +359,16 @@ Section Tasks.
   Qed.
 
   Lemma sched_apply_tasks layers : (forall layer p, In layer layers -> In p layer -> local_ok' pl p) ->
-    forall ka kw rest, sched pl P1 rest -> sched pl P1 (fst (apply_tasks sc ka kw layers) ++ rest).
+    forall ka kw rest, sched sc pl P1 rest -> sched sc pl P1 (fst (apply_tasks sc ka kw layers) ++ rest).
   Proof.
     induction layers as [|l t IH]; intros H ka kw rest HR; cbn [apply_tasks]; [exact HR|].
     assert (Hl : Forall (local_ok' pl) l)
       by (apply Forall_forall; intros p Hp; eapply H; [left; reflexivity|exact Hp]).
     assert (Ht : forall layer p, In layer t -> In p layer -> local_ok' pl p)
       by (intros; eapply H; [right; eassumption|assumption]).
+    assert (Hw : forall j, In j (map p_id l) -> In j (apply_ids pl)).
+    { intros j Hj. apply in_map_iff in Hj. destruct Hj as [p [<- Hp]].
+      rewrite Forall_forall in Hl. destruct (Hl p Hp) as [l0 [_ [_ X]]]. exact X. }
     destruct (is_dry (o_dry (sc_opts sc))).
     - specialize (IH Ht (S ka) kw rest HR). destruct (apply_tasks sc (S ka) kw t) as [ts kw']. cbn [fst] in *.
       cbn. auto.
@@ -374,14 +377,18 @@ Section Tasks.
   Qed.
 
   Lemma sched_prune_tasks f layers : (forall layer p, In layer layers -> In p layer -> prune_ok pl p) ->
-    forall kp kw rest, sched pl f rest -> sched pl f (prune_tasks sc kp kw layers ++ rest).
+    forall kp kw rest, sched sc pl f rest -> sched sc pl f (prune_tasks sc kp kw layers ++ rest).
   Proof.
     induction layers as [|l t IH]; intros H kp kw rest HR; cbn [prune_tasks]; [exact HR|].
     assert (Hl : Forall (prune_ok pl) l)
       by (apply Forall_forall; intros p Hp; eapply H; [left; reflexivity|exact Hp]).
     assert (Ht : forall layer p, In layer t -> In p layer -> prune_ok pl p)
       by (intros; eapply H; [right; eassumption|assumption]).
-    destruct (is_dry (o_dry (sc_opts sc))); cbn; split; try exact Hl; apply IH; assumption.
+    destruct (is_dry (o_dry (sc_opts sc))) eqn:ED; cbn [app sched].
+    - rewrite ED. split; [exact Hl|]. split; [discriminate|]. apply IH; assumption.
+    - rewrite ED. split; [exact Hl|]. split.
+      + intros _ p Hp. cbn. apply in_or_app. left. apply in_map. exact Hp.
+      + split; [discriminate|]. apply IH; assumption.
   Qed.
 
   Lemma bp_local_ok' layer p : In layer (pl_apply_layers pl) -> In p layer -> local_ok' pl p.
@@ -393,11 +400,11 @@ Section Tasks.
     exists (pobj_of_local l). auto.
   Qed.
 
-  Lemma sched_tasks_of : (o_destroy (sc_opts sc) = true -> pl_apply pl = []) -> sched pl P0 (tasks_of sc pl).
+  Lemma sched_tasks_of : (o_destroy (sc_opts sc) = true -> pl_apply pl = []) -> sched sc pl P0 (tasks_of sc pl).
   Proof.
     intros HDs. unfold tasks_of.
-    assert (A : forall rest, sched pl P1 rest ->
-              sched pl P1 (fst (match pl_apply pl with [] => ([], 0) | _ => apply_tasks sc 0 0 (pl_apply_layers pl) end) ++ rest)).
+    assert (A : forall rest, sched sc pl P1 rest ->
+              sched sc pl P1 (fst (match pl_apply pl with [] => ([], 0) | _ => apply_tasks sc 0 0 (pl_apply_layers pl) end) ++ rest)).
     { intros rest HR. destruct (pl_apply pl); [exact HR|]. apply sched_apply_tasks; [|exact HR].
       intros layer q. apply bp_local_ok'. }
     assert (A0 : o_destroy (sc_opts sc) = true ->
@@ -405,7 +412,7 @@ Section Tasks.
       by (intros D; rewrite (HDs D); reflexivity).
     destruct (match pl_apply pl with [] => ([], 0) | _ => apply_tasks sc 0 0 (pl_apply_layers pl) end) as [at_ kw].
     cbn [fst] in *.
-    assert (B : forall f, sched pl f ((if o_prune (sc_opts sc) then match pl_prune pl with [] => [] | _ => prune_tasks sc 0 kw (pl_prune_layers pl) end else []) ++ [TInvSet])).
+    assert (B : forall f, sched sc pl f ((if o_prune (sc_opts sc) then match pl_prune pl with [] => [] | _ => prune_tasks sc 0 kw (pl_prune_layers pl) end else []) ++ [TInvSet])).
     { intros f. destruct (o_prune (sc_opts sc)); [|reflexivity]. destruct (pl_prune pl) eqn:E; [reflexivity|].
       apply sched_prune_tasks; [|reflexivity]. intros layer q. apply bp_prune_ok. }
     destruct (o_destroy (sc_opts sc)).
